@@ -794,19 +794,28 @@ def fault_oracle(case, toks, items):
         # general histories: every I/O error that surfaces carries the kind of the next injected failure
         read_kinds = [e[1:] for e in case['script'].split(',') if e.startswith('f')] if case['script'] != '-' else []
         seek_kinds = [e.split('.')[1] for e in case['seekfails'].split(',')] if case['seekfails'] != '-' else []
+        # a seek can fail in the source's seek or in a read it triggers (completion of a partly filled
+        # buffer, refill after a real seek): both attributions are followed
+        states = {(0, tuple(sorted(seek_kinds)))}
         for idx, tok in enumerate(toks):
             tok = strip_growth(tok)
             if tok.startswith('E:io'):
                 got = tok[2:].split('/')[0].split('.')[1]
                 op = case['ops'][idx] if idx < len(case['ops']) else '?'
                 v.nontrivial = True
-                if op[0] in 'kK' and got in seek_kinds:
-                    seek_kinds.remove(got)
-                elif read_kinds and got == read_kinds[0]:
-                    read_kinds.pop(0)
-                else:
-                    v.failures.append('op %d (%s) reported I/O error kind %s; injected: reads %s, seeks %s' % (idx, op, got, read_kinds, seek_kinds))
+                nxt = set()
+                for ri, sk in states:
+                    if op[0] in 'kK' and got in sk:
+                        l = list(sk)
+                        l.remove(got)
+                        nxt.add((ri, tuple(l)))
+                    if ri < len(read_kinds) and got == read_kinds[ri]:
+                        nxt.add((ri + 1, sk))
+                if not nxt:
+                    ri, sk = min(states)
+                    v.failures.append('op %d (%s) reported I/O error kind %s; injected: reads %s, seeks %s' % (idx, op, got, read_kinds[ri:], list(sk)))
                     return v
+                states = nxt
         return v
     k = 0
     for idx, tok in enumerate(toks):
